@@ -68,10 +68,12 @@ class TypeAliasUnwrappingProvider(LocatedRequestDelegatingProvider):
         value_params = getattr(value, "__parameters__", ())
         if len(params) != len(args) or not all(isinstance(param, TypeVar) for param in params):
             return value[tuple(args)]
+        param_to_arg = dict(zip(params, args))
+        if isinstance(value, TypeVar):  # `type Id[X] = X`
+            return param_to_arg.get(value, value)
         if not value_params:
             return value
         # value is parametrized by order of first appearance, not by order of alias declaration
-        param_to_arg = dict(zip(params, args))
         return value[tuple(param_to_arg[param] for param in value_params)]
 
 
